@@ -50,7 +50,7 @@ with notrace():
     ATTR_SITES = [(one(a).O_OBJ[102]().Key_Lett, a.Name) for a in _bp.select_many('O_ATTR')]
     BASE_ATTRS = [(one(a).O_OBJ[102]().Key_Lett, a.Name) for a in _bp.select_many('O_ATTR') if not one(a).O_RATTR[106]()]
     CLASSES = [o.Key_Lett for o in _bp.select_many('O_OBJ')]
-TYPES = ['integer', 'string', 'boolean', 'real', 'unique_id', 'My_Integer', 'My_Enum', 'timestamp', 'void']
+TYPES = ['integer', 'string', 'boolean', 'real', 'unique_id', 'My_Integer', 'My_Enum', 'timestamp', 'void', '*nested']
 NATTR, NBASE, NTYPES, NCLS = len(ATTR_SITES), len(BASE_ATTRS), len(TYPES), len(CLASSES)
 
 
@@ -86,6 +86,11 @@ def finish(bp, exp_elems, exp_types, what, wellformed=False):
     return True
 
 
+def pregen(bp):
+    """generate the schema once BEFORE the edit, on the same model object (generate - edit - generate)"""
+    G.build_schema(bp, bp.select_one('C_C'))
+
+
 def find_attr(bp, kl, name):
     return [a for a in bp.select_many('O_ATTR') if one(a).O_OBJ[102]().Key_Lett == kl and a.Name == name][0]
 
@@ -100,6 +105,7 @@ def check_rename(si: int, s: str) -> bool:
     with notrace():
         bp = load_bp()
         attr = find_attr(bp, kl, name)
+        pregen(bp)
     attr.Name = s
     case(EDIT, kl, name)
     exp = {k: [((s if (k == kl and a == name) else a), t) for a, t in v] for k, v in B_ELEMS.items()}
@@ -116,7 +122,17 @@ def check_retype(bi: int, ti: int) -> bool:
     with notrace():
         bp = load_bp()
         attr = find_attr(bp, kl, name)
-        new_dt = bp.select_one('S_DT', lambda x: x.Name == TYPES[ti])
+        if TYPES[ti] == '*nested':
+            # a user type based on the user type My_Integer (two levels above the core type integer)
+            inner = bp.select_one('S_DT', lambda x: x.Name == 'My_Integer')
+            new_dt = bp.new('S_DT', Name='My_Count')
+            pe = bp.new('PE_PE')
+            xtuml.relate(new_dt, pe, 8001); xtuml.relate(pe, one(inner).PE_PE[8001].EP_PKG[8000](), 8000)
+            udt = bp.new('S_UDT')
+            xtuml.relate(udt, new_dt, 17); xtuml.relate(udt, inner, 18)
+        else:
+            new_dt = bp.select_one('S_DT', lambda x: x.Name == TYPES[ti])
+        pregen(bp)
         xtuml.unrelate(attr, one(attr).S_DT[114](), 114)
         xtuml.relate(attr, new_dt, 114)
         affected = set([(kl, name)])
@@ -130,7 +146,7 @@ def check_retype(bi: int, ti: int) -> bool:
                     affected.add(key); changed = True
     case(EDIT, kl, name, TYPES[ti])
     # the attribute's base data type: user-defined types are unwound to their base
-    base = {'My_Integer': 'integer', 'timestamp': 'integer', 'void': None}.get(TYPES[ti], TYPES[ti])
+    base = {'My_Integer': 'integer', 'timestamp': 'integer', 'void': None, '*nested': 'integer'}.get(TYPES[ti], TYPES[ti])
     exp = {}
     for k, v in B_ELEMS.items():
         lst = []
@@ -141,7 +157,10 @@ def check_retype(bi: int, ti: int) -> bool:
             else:
                 lst.append((a, t))
         exp[k] = lst
-    return finish(bp, exp, B_TYPES, 'retype %s.%s to %s' % (kl, name, TYPES[ti]))
+    exp_types = dict(B_TYPES)
+    if TYPES[ti] == '*nested':
+        exp_types['My_Count'] = ('My_Integer', [])
+    return finish(bp, exp, exp_types, 'retype %s.%s to %s' % (kl, name, TYPES[ti]))
 
 
 def check_enum(op: int, s: str) -> bool:
@@ -156,6 +175,7 @@ def check_enum(op: int, s: str) -> bool:
         edt = bp.select_one('S_EDT')
         first = one(edt).S_ENUM[27](lambda sel: not one(sel).S_ENUM[56, 'succeeds']())
         second = one(first).S_ENUM[56, 'precedes']()
+        pregen(bp)
         if op == 0:
             e3 = bp.new('S_ENUM', Name='tmp')
             xtuml.relate(e3, edt, 27)
@@ -176,17 +196,24 @@ def check_enum(op: int, s: str) -> bool:
 
 def check_udt(bi: int, ni: int) -> bool:
     """
-    pre: 0 <= bi < 4 and 0 <= ni < 3
+    pre: 0 <= bi < 5 and 0 <= ni < 3
     post: POST(_)
     """
     # add a user-defined type named s (in the component's Types package) on base 'string' /
     # 'My_Integer' (UDT of a UDT) / 'My_Enum' / 'void' (unsupported base: no declaration)
-    bi = cs(bi, 0, 3)
+    bi = cs(bi, 0, 4)
     s = ['Zt', 'a', 'My_Other_Type'][cs(ni, 0, 2)]     # type names are dictionary keys (hashed): case-split
-    bname = ['string', 'My_Integer', 'My_Enum', 'void'][bi]
+    bname = ['string', 'My_Integer', 'My_Enum', 'void', '*rebase'][bi]
     with notrace():
         bp = load_bp()
-        base = bp.select_one('S_DT', lambda x: x.Name == bname)
+        pregen(bp)
+        if bname == '*rebase':
+            # change the base of the existing user type My_Integer from integer to real
+            mi = bp.select_one('S_DT', lambda x: x.Name == 'My_Integer')
+            u = one(mi).S_UDT[17]()
+            xtuml.unrelate(u, one(u).S_DT[18](), 18)
+            xtuml.relate(u, bp.select_one('S_DT', lambda x: x.Name == 'real'), 18)
+        base = bp.select_one('S_DT', lambda x: x.Name == ('string' if bname == '*rebase' else bname))
         proto = bp.select_one('S_DT', lambda x: x.Name == 'My_Integer')
         pkg = one(proto).PE_PE[8001].EP_PKG[8000]()
         s_dt = bp.new('S_DT', Name='tmp')
@@ -197,7 +224,10 @@ def check_udt(bi: int, ni: int) -> bool:
     s_dt.Name = s
     case(EDIT, bname)
     exp_types = dict(B_TYPES)
-    if bname != 'void':
+    if bname == '*rebase':
+        exp_types['My_Integer'] = ('real', [])
+        exp_types[s] = ('string', [])
+    elif bname != 'void':
         exp_types[s] = (bname, [])
     return finish(bp, B_ELEMS, exp_types, 'new user type on %s' % bname)
 
@@ -215,6 +245,7 @@ def check_scope(ci: int, how: int) -> bool:
     with notrace():
         bp = load_bp()
         o = bp.select_one('O_OBJ', lambda x: x.Key_Lett == kl)
+        pregen(bp)
         exp = {k: list(v) for k, v in B_ELEMS.items()}
         if how == 0:
             pe = one(o).PE_PE[8001]()
